@@ -30,7 +30,7 @@ CLASS_LAYER = [PA + 'Pauli.__matmul__#Pauli', PA + 'Pauli.__neg__', PA + 'Pauli.
                'pyclifford/circuit.py::CliffordGate.forward#map_global'] + GATES[3:] + LOCAL_GATES + LOCAL_STATE + \
               [PA + '%s.__rmul__#%s' % (c, t) for c in ('Pauli', 'PauliList') for t in ('1', 'i', 'm1', 'mi')] + \
               [PA + 'pauli#codes', PA + 'pauli#chars', PA + 'pauli#str', PA + 'PauliList.__getitem__#mask', PA + 'PauliList.__getitem__#slice', PA + 'PauliList.__getitem__#index'] + \
-              RANDOM_STATE + RANDOM_CLIFFORD[:2] + CASTS + POLY_SEL + MBACK + ['pyclifford/circuit.py::CliffordGate.copy#generator', 'pyclifford/circuit.py::CliffordGate.copy#maps', ST + 'StabilizerState.sample', ST + 'stabilizer_state#list', ST + 'random_bit_state', ST + 'random_bit_state_gs_ps'] + ANY_GATE + ['pyclifford/circuit.py::CliffordGate.compile#forward_only', 'pyclifford/circuit.py::CliffordGate.compile#backward_only']
+              RANDOM_STATE + RANDOM_CLIFFORD[:2] + CASTS + POLY_SEL + MBACK + ['pyclifford/circuit.py::CliffordGate.copy#generator', 'pyclifford/circuit.py::CliffordGate.copy#maps', ST + 'StabilizerState.sample', ST + 'stabilizer_state#list', ST + 'random_bit_state', ST + 'random_bit_state_gs_ps'] + ANY_GATE + ['pyclifford/circuit.py::CliffordGate.compile#forward_only', 'pyclifford/circuit.py::CliffordGate.compile#backward_only', 'pyclifford/circuit.py::CliffordGate.compile#any']
 
 # every kernel that currently has a discharged contract (their frame.* obligations are the C17 frame conditions)
 MEASURE_LEMMAS = ['ordp_parity', 'xzpartial_full', 'selacq_map', 'selacq_image', 'partnersum_acq', 'transform_preserves_acq', 'acq_diff2', 'onsite_flat', 'acq_bilinear', 'acq_antisym', 'ipow_parity', 'ordg_bits', 'acq_zero', 'ordg_acq', 'selacq_gram', 'acqsum_ext',
@@ -147,7 +147,7 @@ def C09(run):
 
 def C10(run):
     run.deductive(keys=[GATES[0], GATES[1], GATES[4], U + 'clifford_rotate', PA + 'Pauli.__neg__', ST + 'CliffordMap.inverse', U + 'z2inv', 'pyclifford/circuit.py::CliffordGate.compile#generator', 'pyclifford/circuit.py::CliffordGate.compile#forward_only',
-                        'pyclifford/circuit.py::CliffordGate.compile#backward_only', 'pyclifford/circuit.py::CliffordGate.backward#any_state', ST + 'clifford_rotation_map'] + LOCAL_GATES, lemmas=['rotate_twice', 'dot_shift', 'dot_add', 'dot_unit', 'ordg_is_dot'] + MASK_LEMMAS)
+                        'pyclifford/circuit.py::CliffordGate.compile#backward_only', 'pyclifford/circuit.py::CliffordGate.compile#any', 'pyclifford/circuit.py::CliffordGate.backward#any_state', ST + 'clifford_rotation_map'] + LOCAL_GATES, lemmas=['rotate_twice', 'dot_shift', 'dot_add', 'dot_unit', 'ordg_is_dot'] + MASK_LEMMAS)
     run.bounded_check('c10_inverse', _b().c10_inverse, Nmax=3, programs=q(run, 40, 1500), maxlen=q(run, 5, 9))
     return 'other', ('deductive (all N, all qubit tuples): backward of a generator gate is the rotation by minus the generator - which undoes the '
                      'rotation (lemma rotate_twice: the two product phases cancel) - and backward of a map gate is the (masked) transformation by '
